@@ -234,8 +234,15 @@ def run(ctx):
     for _ in range(ctx.budget(25, 250)):
         cfg = kfacsim.Config(rng, world=rng.choice([1, 1, 2, 4]))
         cfg.ops = []
-        for _i in range(rng.randrange(1, 5)):
+        resume = rng.random() < 0.5
+        for _i in range(rng.randrange(1, 5) + (2 if resume else 0)):
             cfg.ops += ['f1'] * cfg.accum + ['s']
+            if resume and rng.random() < 0.4:
+                # checkpoint → fresh preconditioner (constructed with other constants) → load: the gradient written
+                # back afterwards still solves the system damped with the preconditioner's (restored) damping
+                cfg.ops.append(rng.choice(['l11', 'l11', 'l10']))
+                cfg.perturb_ctor = True
+        kfacsim.fix_loads(cfg)
         cfgs.append(cfg)
     kfacsim.run_batch(ctx, cfgs, ('grads',), oracles=(kfacsim.oracle_reference,), whole_only_oracles=False)
 
